@@ -105,6 +105,8 @@ MODELS = [
         M(a=M(x=I(1)), b=M(x=I(2)), s=M(x=I(3)), l=Q(M(x=I(4))),
           d=M(k=M(x=I(5))), zz=M(x=I(6))),
         M(a=Q(M(k=M(x=I(1)))), zz=Q(Q(M(x=I(2))))),
+        # untyped positions next to NESTED typed ones (aliases between them)
+        M(a=I(0), b=I(0), t=M(k=M(x=I(1))), ts=Q(M(x=I(2))), yy=I(0)),
     ]),
     ('trap_any', Any, [Z.Trap, Z.Sub], [
         M(x=I(1)), Q(M(x=I(1)), M(k=M(x=I(2)))),
